@@ -32,6 +32,7 @@ pub struct Exec {
     pub viol: Vec<Violation>,
     pub stats: Stats,
     pub trace: u64,
+    pub class_trace: u64,
     pub abstract_trace: u64,
     pub faults: u64,
     pub wire: Vec<WireEv>,
@@ -57,6 +58,7 @@ pub fn finish_exec(w: World, failed_ops: Vec<bool>) -> Exec {
         viol: w.viol,
         stats: w.stats,
         trace: w.trace.0,
+        class_trace: w.class_trace.0,
         abstract_trace: w.abstract_trace.0,
         faults: w.faults_in_run,
         wire: w.wire,
@@ -137,7 +139,7 @@ pub fn twin_compare(cfg: &RunCfg, ops: &[Op]) -> (Vec<Violation>, Vec<Exec>) {
         execs.push(exec_plain(&c, ops));
     }
     for (k, e) in execs.iter().enumerate().skip(1) {
-        if e.wire != execs[0].wire || e.trace != execs[0].trace {
+        if e.wire != execs[0].wire || e.class_trace != execs[0].class_trace {
             let pos = e.wire.iter().zip(execs[0].wire.iter()).position(|(a, b)| a != b);
             v.push(Violation {
                 prop: "C20".into(),
@@ -185,6 +187,9 @@ pub struct FarmOut {
     pub fault_free_runs: u64,
     pub faulted_runs: u64,
     pub violating: Vec<RunOut>,
+    /// number of runs with at least one violation of any property (the runs kept in `violating`
+    /// are the lowest-index representatives of each class)
+    pub violating_runs: u64,
     pub samples: Vec<RunOut>,
     pub per_run_traces: Vec<(u64, u64)>,
     pub hang: Option<(u64, u64)>,
@@ -205,6 +210,7 @@ pub fn farm(f: ScenarioFn, verif_seed: u64, salt: u64, n: u64, thorough: bool, w
         fault_free_runs: 0,
         faulted_runs: 0,
         violating: vec![],
+        violating_runs: 0,
         samples: vec![],
         per_run_traces: vec![],
         hang: None,
@@ -251,7 +257,10 @@ pub fn farm(f: ScenarioFn, verif_seed: u64, salt: u64, n: u64, thorough: bool, w
             let mut local_trace = 0u64;
             let mut local_runs = 0u64;
             let (mut ff, mut fl) = (0u64, 0u64);
-            let mut local_viol = vec![];
+            let mut local_viol: Vec<RunOut> = vec![];
+            let mut local_class_min: std::collections::BTreeMap<(String, String, String), u64> = Default::default();
+            let mut viol_runs_counter = 0u64;
+            let local_viol_runs = &mut viol_runs_counter;
             let mut local_samples = vec![];
             let mut local_traces = vec![];
             let mut local_strata: BTreeSet<String> = BTreeSet::new();
@@ -301,8 +310,26 @@ pub fn farm(f: ScenarioFn, verif_seed: u64, salt: u64, n: u64, thorough: bool, w
                 if idx < 3 {
                     local_samples.push(r.clone());
                 }
-                if !r.viol.is_empty() && local_viol.len() < 64 {
-                    local_viol.push(r);
+                if !r.viol.is_empty() {
+                    // keep, per violation class, the run with the lowest index: independent of
+                    // thread timing, and plentiful classes cannot crowd out rare ones
+                    let mut keep = false;
+                    for v in &r.viol {
+                        let key = (v.prop.clone(), v.clause.clone(), v.site.clone());
+                        let e = local_class_min.entry(key).or_insert(u64::MAX);
+                        if r.idx < *e {
+                            *e = r.idx;
+                            keep = true;
+                        }
+                    }
+                    *local_viol_runs += 1;
+                    if keep {
+                        local_viol.push(r);
+                        if local_viol.len() > 256 {
+                            // drop runs that are no longer the minimum of any class
+                            local_viol.retain(|x| x.viol.iter().any(|v| local_class_min.get(&(v.prop.clone(), v.clause.clone(), v.site.clone())) == Some(&x.idx)));
+                        }
+                    }
                 }
             }
             let mut o = out.lock().unwrap();
@@ -313,6 +340,7 @@ pub fn farm(f: ScenarioFn, verif_seed: u64, salt: u64, n: u64, thorough: bool, w
             o.fault_free_runs += ff;
             o.faulted_runs += fl;
             o.violating.extend(local_viol);
+            o.violating_runs += viol_runs_counter;
             o.samples.extend(local_samples);
             o.per_run_traces.extend(local_traces);
             o.strata.extend(local_strata);
@@ -348,6 +376,7 @@ pub fn farm(f: ScenarioFn, verif_seed: u64, salt: u64, n: u64, thorough: bool, w
                 fault_free_runs: 0,
                 faulted_runs: 0,
                 violating: vec![],
+                violating_runs: 0,
                 samples: vec![],
                 per_run_traces: vec![],
                 hang: None,
